@@ -29,7 +29,9 @@ MANIFEST = dict(
          "data, within the data range, and monotone in q under stochastic monotonicity of the Beta family. The translated "
          "definitions, the hand model of the two raw-index methods, of remove_samples' count and of the quantile sum are run "
          "against the real methods (stand-in sampler object + real OrderedSamples, and real INS runs) on generated live sets. "
-         "Tied likelihoods at the cut defeat the count guarantees in the real code (proved counter-example, known finding F5).",
+         "Tied likelihoods at the cut defeat the count guarantees in the real code (proved counter-example, known finding F5). "
+         "The training floor needs min_samples <= size of the training set; n_initial < min_samples is accepted by "
+         "check_configuration and then the first proposal is trained on fewer samples (reproduced in a real run, known finding).",
     note="Partial: 'reduces to the ordinary quantile for equal weights' is not shown (Harrell-Davis only approximates it; the "
          "measured deviation is reported). Assumed: SciPy betainc is a CDF, decreasing in q at fixed x; NumPy argmax/cumsum; "
          "float rounding (exact comparison is restricted to integer-valued weights and dyadic q).",
@@ -40,6 +42,7 @@ SRC = "nessai/samplers/importancesampler.py"
 KEY = "determine_log_likelihood_threshold"
 TIE_KEY = KEY + ":tied-likelihoods-at-cut"
 TRAIN_KEY = "add_new_proposal:train-floor"
+NINIT_KEY = "add_new_proposal:n_initial<min_samples:trained-on-fewer-than-min_samples"
 WQ_KEY = "weighted_quantile"
 
 CLAMP = Spec(
@@ -644,6 +647,9 @@ def layer_train(ctx, lines, impls, cases, budget):
 def do_train(ctx, case, lines, impls, cases):
     impl, ntrained = run_train_real(case)
     n, ms = len(case["logL"]), case["min_samples"]
+    # a training set smaller than min_samples cannot yield min_samples samples whatever add_new_proposal does: at this
+    # level the case is only compared with the model (train_len_when_fewer_than_min_samples); that such a set is REACHABLE
+    # (n_initial < min_samples passes check_configuration) is judged on the real runs of layer (G) under NINIT_KEY
     if ntrained is not None and ms >= 1 and n >= ms and ntrained < ms:
         ctx.oracle_fail(TRAIN_KEY, f"proposal trained on {ntrained} < min_samples={ms} samples ({n} available)", case)
     ranks, (tr,) = dense_ranks(case["logL"], [case["thr"]])
@@ -651,7 +657,7 @@ def do_train(ctx, case, lines, impls, cases):
     impls.append(impl)
     cases.append(case)
     ctx.case(("train", tuple(case["logL"]), case["thr"], ms), n >= 2, sample=_jsonable(case) if n == 5 else None,
-             kind="train:" + ("floor-applies" if (ms >= 1 and n >= ms) else "outside:size<min_samples-or-min_samples<1"))
+             kind="train:" + ("floor-applies" if (ms >= 1 and n >= ms) else "model-only:size<min_samples-or-min_samples<1"))
 
 
 # ---- layer C: translator self-test ----------------------------------------------------------------------
@@ -867,7 +873,8 @@ def real_runs(ctx, lines, impls, cases, configs):
 
     def add(self):
         orig_add(self)
-        rec_train.append((len(self.current_training_samples), int(self.training_samples.samples.size), int(self.min_samples)))
+        rec_train.append((len(self.current_training_samples), int(self.training_samples.samples.size), int(self.min_samples),
+                          int(self.n_initial)))
 
     for conf in configs:
         reset_extra_live_points_parameters()
@@ -898,10 +905,18 @@ def real_runs(ctx, lines, impls, cases, configs):
                 # not a failure of the threshold choice itself (those are judged by the oracle below): the trace is unusable
                 ctx.broken(f"real-run: ImportanceNestedSampler run crashed ({type(crashed).__name__}); its live sets could not all be checked",
                            f"{conf}: {crashed!r}")
-        for ntr, tot, ms in rec_train:
-            if tot >= ms and ntr < ms:
-                ctx.oracle_fail(TRAIN_KEY, f"real run: proposal trained on {ntr} < min_samples={ms} samples ({tot} available)", case0)
-            ctx.case(("run-train", seed, ntr, tot), True, kind="real-run:add_new_proposal")
+        for ntr, tot, ms, ninit in rec_train:
+            # "in real runs every proposal is trained on at least min_samples samples" — demanded of EVERY training
+            kind = "real-run:add_new_proposal"
+            if ntr < ms:
+                if tot < ms and ninit < ms:
+                    # the whole training set is smaller than min_samples, which only an accepted n_initial < min_samples produces
+                    ctx.oracle_fail(NINIT_KEY, f"real run with n_initial={ninit} < min_samples={ms} (accepted by check_configuration, which "
+                                    f"compares min_samples with nlive only): proposal trained on {ntr} samples ({tot} available)", case0)
+                    kind += ":n_initial<min_samples"
+                else:
+                    ctx.oracle_fail(TRAIN_KEY, f"real run: proposal trained on {ntr} < min_samples={ms} samples ({tot} available)", case0)
+            ctx.case(("run-train", seed, ntr, tot), True, kind=kind)
         for it in rec_det:
             smp = it["samples"]
             slf = it["self"]
@@ -977,8 +992,11 @@ def correspond(ctx):
     confs = [dict(nlive=150, min_samples=40, min_remove=3, max_iteration=3),
              dict(nlive=150, min_samples=40, min_remove=5, max_iteration=3, threshold_method="quantile",
                   threshold_kwargs=dict(q=0.7), draw_iid_live=False, max_samples=400)]
+    # n_initial < min_samples is accepted by check_configuration: the first proposal cannot get min_samples samples
+    confs += [dict(nlive=50, n_initial=10, min_samples=30, min_remove=1, max_iteration=2, draw_iid_live=False)]
     if not ctx.quick:
-        confs += [dict(nlive=200, min_samples=150, min_remove=1, max_iteration=5, strict_threshold=True),
+        confs += [dict(nlive=50, n_initial=10, min_samples=30, min_remove=1, max_iteration=2),
+                  dict(nlive=200, min_samples=150, min_remove=1, max_iteration=5, strict_threshold=True),
                   dict(nlive=120, min_samples=20, min_remove=60, max_iteration=4, draw_iid_live=False, draw_constant=False),
                   dict(nlive=200, min_samples=50, min_remove=10, max_iteration=4, threshold_kwargs=dict(q=0.9, include_likelihood=True)),
                   dict(nlive=100, min_samples=100, min_remove=1, max_iteration=3, threshold_method="quantile", max_samples=250)]
